@@ -111,7 +111,7 @@ def run(ctx):
                      note="negative control: allocation as load-then-store hands one number to two writers")
     # (G) sequential, systematic
     if ctx.quick:
-        gens = [({"L": 1}, None), ({"L": 2, "Exts <-": "SomeExts"}, 2500)]
+        gens = [({"L": 1}, None), ({"L": 2, "Exts <-": "SomeExts"}, None)]
     else:
         gens = [({"L": 1}, None), ({"L": 2}, None), ({"L": 3, "Exts <-": "SomeExts"}, 40000)]
     scripts = []
